@@ -51,7 +51,7 @@ def graph_key(gr):
 
 
 def def_lines(d, ind, style="normal"):
-    """style: normal | endless (def m = value) | multiline (signature over two lines, defaulted parameters)"""
+    """style: normal | endless (def m = value) | endless2 (def m =\n value) | multiline (signature over two lines, defaulted parameters)"""
     body = LIT[d["ret"]]
     name = d["name"]
     if d["static"] and d["how"] == "sclass":
@@ -62,6 +62,8 @@ def def_lines(d, ind, style="normal"):
     head = "def self.%s" % name if d["static"] else "def %s" % name
     if style == "endless":
         return [ind + head + " = " + body]
+    if style == "endless2":      # the body of the endless definition on the next line
+        return [ind + head + " =", ind + "  " + body]
     if style == "multiline":
         return [ind + head + "(a = 1,", ind + " " * (len(head) + 1) + "b = 2)", ind + "  " + body, ind + "end"]
     return [ind + head, ind + "  " + body, ind + "end"]
